@@ -8,6 +8,14 @@ PROPS = {
         "trusted": ["google.golang.org/protobuf/encoding/protowire v1.34.0 as the reference for the implementation-side predicate"],
         "assumptions": ["Go's bits.Len64, integer shifts and slice indexing behave as transcribed in Model/Runtime.v"],
     },
+    "C17": {
+        "engines": ["time"],
+        "rule": "Add: full product of timestamp seconds (range extremes, 0, +-1) x nanos boundaries x duration seconds x duration nanos of both signs (every carry/borrow boundary), int64 extremes for the overflow clause, then random valid pairs biased to nanos sums near 0 and 1e9; AddStd and Compare on the same. distinct_nontrivial counts distinct (class, outcome, sign of nanos-sum - 1e9, sign of nanos-sum, sign of duration) keys.",
+        "level_text": "Theorems for all valid timestamps/durations (and, for the overflow clause, all int64 seconds) about a Gallina model of timepb.Add/AddStd/Compare with Go's int64/int32 wrap-around written out: Add is exact, normalised and never panics on valid inputs, equals AddStd on every time.Duration, panics whenever the carried seconds sum leaves int64; Compare is the chronological total order. The model is run against the Go functions and a math/big oracle on ~50k cases per quick run.",
+        "level_note": "Trusted: Coq kernel, extraction, OCaml driver, Go runner; time.Time arithmetic inside AddStd is modelled as exact integer arithmetic (validated by the run, not proved); 'returns a fresh value' is checked on the implementation only (pointer inequality, arguments unchanged).",
+        "trusted": ["math/big and timestamppb/durationpb CheckValid as the implementation-side oracle"],
+        "assumptions": ["time.Time.Add is exact for instants reachable from a valid Timestamp by an int64 nanosecond offset"],
+    },
 }
 
 NOT_APPLICABLE = {}
